@@ -299,7 +299,7 @@ class C12(core.Check):
     partial_note = (
         "theorems are about the state machine CBV.C12 (rational coordinates with %.8f rendering, arc / spline / polyLine / project edges, "
         "entities, geometry list, statements of clear / backport / write tied to the source by ast); vertex identity is exact equality "
-        "of coordinates (implementation: within TOL), chops are count-only on every axis, origin / angle / curve edges, size-based or "
+        "of coordinates (implementation: within TOL; equal on separated points by T_C12_tol_assemble), chops are count-only on every axis, origin / angle / curve edges, size-based or "
         "graded chops and propagation are outside the model and only covered by the byte-for-byte oracle on the generated "
         "histories; an exception inside assemble() is modelled for invalid edge data only"
     )
